@@ -118,6 +118,27 @@ m('expected-size-unchecked', 'C18', 'EXPECTED-SIZE', 'src/enc/lzma_writer.rs',
   '            if exp < self.current_uncompressed_size + buf.len() as u64 {', '            if exp < self.current_uncompressed_size {', 'declared-size-checked-before-encoding')
 m('lzip-dict-unclamped', 'C19', 'OPT-TAINT', 'src/lzip/writer.rs', None, None, 'encode_dict_size')
 
+
+# ---- C01 codec mirror (encoder side: decoder is exercised by the xz_reference fixtures)
+m('enc-rep1-rep2-swapped', 'C01', 'CODEC-MIRROR', 'src/enc/encoder.rs',
+  '                rc.encode_bit(&mut self.coder.is_rep1, state, 1)?;\n                let state = self.coder.state.get() as usize;\n                rc.encode_bit(&mut self.coder.is_rep2, state, rep - 2)?;',
+  '                rc.encode_bit(&mut self.coder.is_rep2, state, 1)?;\n                let state = self.coder.state.get() as usize;\n                rc.encode_bit(&mut self.coder.is_rep1, state, rep - 2)?;', 'rep-match:rep')
+m('enc-rep3-rotation', 'C01', 'CODEC-MIRROR', 'src/enc/encoder.rs',
+  '                if rep == 3 {\n                    self.coder.reps[3] = self.coder.reps[2];\n                }\n', '', 'rep-match:rep3')
+m('enc-longrep-state', 'C01', 'CODEC-MIRROR', 'src/enc/encoder.rs',
+  '            self.rep_len_encoder.encode(len, pos_state, rc)?;\n            self.coder.state.update_long_rep();', '            self.rep_len_encoder.encode(len, pos_state, rc)?;\n            self.coder.state.update_match();', 'rep-match:rep')
+m('enc-rep-uses-match-len', 'C01', 'CODEC-MIRROR', 'src/enc/encoder.rs',
+  '            self.rep_len_encoder.encode(len, pos_state, rc)?;', '            self.match_len_encoder.encode(len, pos_state, rc)?;', 'length-coders-distinct')
+m('enc-rep0long-polarity', 'C01', 'CODEC-MIRROR', 'src/enc/encoder.rs', 'if len == 1 { 0 } else { 1 },', 'if len == 1 { 1 } else { 0 },', 'rep-match:')
+m('enc-endmarker-bit', 'C01', 'CODEC-MIRROR', 'src/enc/encoder.rs',
+  '        rc.encode_bit(&mut self.coder.is_rep, self.coder.state.get() as usize, 0)?;\n        self.encode_match(u32::MAX', '        rc.encode_bit(&mut self.coder.is_rep, self.coder.state.get() as usize, 1)?;\n        self.encode_match(u32::MAX', 'top:encode_lzma1_end_marker')
+m('enc-dist-special-threshold', 'C01', 'CODEC-MIRROR', 'src/enc/encoder.rs', 'if dist_slot < DIST_MODEL_END as u32 {', 'if dist_slot <= DIST_MODEL_END as u32 {', 'match:slot')
+m('enc-len-mid-table', 'C01', 'CODEC-MIRROR', 'src/enc/encoder.rs', 'rc.encode_bit_tree(&mut self.coder.mid[pos_state as usize], len as _)?;', 'rc.encode_bit_tree(&mut self.coder.low[pos_state as usize], len as _)?;', 'length:choice=10')
+m('enc-match-reps-order', 'C01', 'CODEC-MIRROR', 'src/enc/encoder.rs',
+  '        self.coder.reps[3] = self.coder.reps[2];\n        self.coder.reps[2] = self.coder.reps[1];\n        self.coder.reps[1] = self.coder.reps[0];\n        self.coder.reps[0] = dist as i32;',
+  '        self.coder.reps[2] = self.coder.reps[1];\n        self.coder.reps[3] = self.coder.reps[2];\n        self.coder.reps[1] = self.coder.reps[0];\n        self.coder.reps[0] = dist as i32;', 'match:slot')
+m('enc-literal-context', 'C01', 'CODEC-MIRROR', 'src/enc/encoder.rs', '        if coder.state.is_literal() {\n            let mut subencoder_index;', '        if !coder.state.is_literal() {\n            let mut subencoder_index;', 'literal:')
+
 M = [x for x in M if x['old'] is not None]
 
 
